@@ -106,6 +106,17 @@ def run(run):
                             law("commutation A || B = B || A", QG.mk("or", a, b), R(QG.mk("or", b, a))[0], both)
                             law("commutation A && B = B && A", both, R(QG.mk("and", b, a))[0], both)
                             law("absorption A || (A && B) = A", QG.mk("or", a, both), R(a)[0], both)
+                            # parentheses only group: every operand written in its own parentheses
+                            P = lambda x: ("paren", x)
+                            law("parentheses !((A) && (B)) = all - (A ∩ B)", ("not", P(("and", P(a), P(b)))), universe - (R(a)[0] & R(b)[0]), both)
+                            law("parentheses !((A) || (B)) = all - (A ∪ B)", ("not", P(("or", P(a), P(b)))), universe - (R(a)[0] | R(b)[0]), both)
+                            law("parentheses ((A) && (B)) = A ∩ B", P(("and", P(a), P(b))), R(a)[0] & R(b)[0], both)
+                            law("parentheses ((A)) || (B) = A ∪ B", ("or", P(P(a)), P(b)), R(a)[0] | R(b)[0], both)
+                            for c in atoms[:2]:
+                                abc = QG.mk("and", both, c)
+                                law("parentheses ((A) || (B)) && (C) = (A ∪ B) ∩ C", ("and", P(("or", P(a), P(b))), P(c)), (R(a)[0] | R(b)[0]) & R(c)[0], abc)
+                                law("parentheses (C) && ((A) || (B)) = C ∩ (A ∪ B)", ("and", P(c), P(("or", P(a), P(b)))), (R(a)[0] | R(b)[0]) & R(c)[0], abc)
+                                law("parentheses (C) || ((A) && (B)) = C ∪ (A ∩ B)", ("or", P(c), P(("and", P(a), P(b)))), (R(a)[0] & R(b)[0]) | R(c)[0], abc)
                             for c in atoms[:2]:
                                 law("distribution A && (B || C) = (A && B) || (A && C)", QG.mk("and", a, QG.mk("or", b, c)),
                                     R(QG.mk("or", QG.mk("and", a, b), QG.mk("and", a, c)))[0], QG.mk("and", both, c))
